@@ -155,12 +155,14 @@ def gen_leaf_value(rng, leaf):
                                    rng.randint(-10 ** 13, 10 ** 13)]))
     if k == 'dec':
         c = leaf.get('cust', {})
-        pool = [decimal.Decimal(s) for s in ('0', '1', '-1', '1.5', '-0.001', '3.14159', '100', '1E+3', '1E+10', '1E-7', '12345678901234567890.123',
-                                            '0.10', '-10.5', '1000')]
+        # (values whose str() is in scientific notation are C08's known finding, not repeated here)
+        pool = [decimal.Decimal(s) for s in ('0', '1', '-1', '1.5', '-0.001', '3.14159', '100', '0.000001', '12345678901234567890.123',
+                                            '0.10', '-10.5', '1000', '-0.0', '99999999999999999999999999999.5')]
         pool = [d for d in pool if ('ge' not in c or d >= c['ge']) and ('le' not in c or d <= c['le']) and ('gt' not in c or d > c['gt'])]
         return ('dec', rng.choice(pool))
     if k == 'dbl':
-        return ('dbl', rng.choice([0.0, 1.0, -1.5, 0.1, 1e22, 1e-5, 1.7976931348623157e308, 5e-324, 123456.789, float('inf'), float('-inf'),
+        # +-INF are left to C05/C08: soft validation refuses them (lt/gt default to the infinities, exclusively)
+        return ('dbl', rng.choice([0.0, 1.0, -1.5, 0.1, 1e22, 1e-5, 1.7976931348623157e308, 5e-324, 123456.789, -2.5e-300,
                                    rng.random() * 1000]))
     if k == 'uuid':
         return ('uuid', str(uuid.UUID(int=rng.getrandbits(128))))
@@ -168,7 +170,7 @@ def gen_leaf_value(rng, leaf):
 
 
 def gen_date(rng):
-    y = rng.choice([2, 1900, 1970, 1999, 2000, 2020, 2024, 2100, 9998, rng.randint(2, 9998)])
+    y = rng.choice([1000, 1900, 1970, 1999, 2000, 2020, 2024, 2100, 9998, rng.randint(1000, 9998)])   # (zeep prints years < 1000 unpadded)
     m = rng.randint(1, 12)
     leap = (y % 4 == 0 and y % 100 != 0) or y % 400 == 0
     dim = [31, 29 if leap else 28, 31, 30, 31, 30, 31, 31, 30, 31, 30, 31][m - 1]
@@ -1080,10 +1082,12 @@ def is_nil(e):
     return e.get('{%s}nil' % XSI) in ('true', '1')
 
 
-def ref_decode(desc, classes, ty, T, e, tns):
+def ref_decode(desc, classes, ty, T, e, tns, nillable=True):
     """schema-directed reading of element e of declared type ty -> neutral value (DecodeError if the
-    element is not what the schema describes)"""
+    element is not what the schema describes); nillable: whether the element declaration says so"""
     if is_nil(e):
+        if not nillable:
+            raise DecodeError('xsi:nil on element %s, which the schema does not declare nillable' % e.tag)
         if len(e) or (e.text or '').strip():
             raise DecodeError('nil element with content')
         return ('none',)
@@ -1128,7 +1132,7 @@ def ref_decode_members(desc, classes, cid, e, tns, fields=None, ns_of=None, type
         else:
             items = []
             while pos < len(kids) and kids[pos].tag == _q(fns, f['name']):
-                items.append(ref_decode(desc, classes, f['ty'], T, kids[pos], tns))
+                items.append(ref_decode(desc, classes, f['ty'], T, kids[pos], tns, f['nillable']))
                 pos += 1
             if len(items) < f['min']:
                 raise DecodeError('%d occurrences of %s, minOccurs=%d' % (len(items), f['name'], f['min']))
